@@ -148,7 +148,13 @@ def gen_schedules(rep, quick, seed, want):
     cfgs = sorted(r.tagged["CFGS"][0], key=lambda c: json.dumps(c, sort_keys=True))
     lossless = r.tagged["LOSSLESS"][0]
     scen = replay.dedupe(r.tagged.get("BEH", []))
-    rs = tlc.run_tlc(COMP, "BrokerStep", "Step_sim.cfg", workers=1, simulate=dict(num=100 if quick else 1500), depth=20,
+    rf = tlc.run_tlc(COMP, "BrokerStep", "Step_focus.cfg", workers=1, timeout=600)
+    rep.add_tlc("BrokerStep/Step_focus.cfg", rf, "edge cover of the membership-churn scenarios (Subscribe / Unsubscribe / pause / Publish only)")
+    if not rf.ok:
+        rep.infra_error("BrokerStep focus generation failed: " + rf.out[-1200:])
+        return [], []
+    focus = replay.dedupe(rf.tagged.get("BEH", []))
+    rs = tlc.run_tlc(COMP, "BrokerStep", "Step_sim.cfg", workers=1, simulate=dict(num=100 if quick else 250), depth=20,
                      seed=seed, timeout=900)
     rep.add_tlc("BrokerStep/Step_sim.cfg", rs, "random deep driver schedules (-simulate)")
     if not rs.ok:
@@ -181,13 +187,18 @@ def gen_schedules(rep, quick, seed, want):
     if quick:
         picked = order[:want] + sim[:want // 6]
     else:
-        picked = order + sim + allseq[:want // 2]      # thorough: every edge scenario
+        picked = order + sim[:4000] + allseq[:want // 2]      # thorough: every edge scenario
     out = []
     ll = [c for c in cfgs if c in lossless]
     k, kl = rng.randrange(len(cfgs)), rng.randrange(len(ll))
 
     def with_cfg(b, c):
         return [dict(op="new", a=c["a"], n=c["n"], w=c["w"], par=c["par"], buf=c["buf"])] + b[1:]
+    # the membership-churn scenarios always run completely: twice on lossless configurations
+    for b in focus:
+        for _ in range(2):
+            out.append(with_cfg(b, ll[kl % len(ll)]))
+            kl += 1
     for i, b in enumerate(picked):
         # every scenario runs on a lossless configuration (all of C08 is judged there) ...
         if not quick or i % 2 == 0:
@@ -197,7 +208,7 @@ def gen_schedules(rep, quick, seed, want):
         if not quick or i % 2 == 1:
             out.append(with_cfg(b, cfgs[k % len(cfgs)]))
             k += 1
-    rep.cov["scenarios_generated"] = dict(edge=len(scen), simulated=len(sim), all_sequences=len(allseq), configs=len(cfgs),
+    rep.cov["scenarios_generated"] = dict(edge=len(scen), focus=len(focus), simulated=len(sim), all_sequences=len(allseq), configs=len(cfgs),
                                           executed=len(out))
     return out, lossless
 
